@@ -59,7 +59,7 @@ RULES = {
 # whose oracles that finding does not touch: keeps them strict in the region clean runs avoid.
 UNSTEER = {
     "F-EARLY": ("C01", "C06", "C07", "C09", "C10", "C11", "C13", "C14"),
-    "F-LOCK": ("C01", "C02", "C03", "C05", "C06", "C07", "C09", "C10", "C11", "C14"),
+    "F-LOCK": ("C01", "C02", "C03", "C05", "C06", "C07", "C09", "C10", "C11", "C14", "C15"),
 }
 QUICK_HRAND = 2000
 QUICK_PHASED = 3000
